@@ -21,7 +21,7 @@ RULE = (
     "overloads, nocache dataset}; wrapper layers WithOptions / WithDefaultOptions / decorator options= / "
     "default_options= / both / .with_options / .with_default_options, all stacks of depth <= 3 (dataset-level layers "
     "only while the object is still a Dataset); 4 pre-set and 3 default dictionaries overlapping inside section S; "
-    "caller dictionaries = product A x S.X x S.Y x {S scalar}.  Non-trivial = (stack, o) where the overlay differs from o."
+    "caller dictionaries = product A x S.X x S.Y x LST, passed as ONE dictionary object updated in place between calls; X also includes consumers / callbacks that modify the values they receive in place.  Non-trivial = (stack, o) where the overlay differs from o."
 )
 ASSUMPTIONS = [
     "overlay(lo, hi) in labmc/optspace.py is the specification of 'overlaid by' (sections merged key by key, lists and scalars replaced)",
